@@ -1,12 +1,13 @@
 #!/bin/bash
 # For every kept seeded mutation without suite.txt: apply it in a scratch worktree and run the repo's full
-# baseline test command; record the pytest summary line in seeded/<id>/suite.txt.
+# baseline test command; record the pytest summary line in seeded/<id>/suite.txt.  PAR=<n> runs n at a time.
 cd /verif || exit 2
-for d in seeded/*/; do
-  id=$(basename "$d")
-  [ -f "$d/suite.txt" ] && continue
+one() {
+  id=$1
+  d=seeded/$id
+  [ -f "$d/suite.txt" ] && exit 0
   wt=/tmp/scratch_suite_$id
-  git -C /repo worktree add --detach "$wt" HEAD >/dev/null 2>&1 || continue
+  git -C /repo worktree add --detach "$wt" HEAD >/dev/null 2>&1 || exit 0
   if git -C "$wt" apply "/verif/$d/patch.diff"; then
     ( cd "$wt" && timeout 2400 /venv/bin/python -m pytest -q -p no:cacheprovider --timeout=900 --continue-on-collection-errors 2>&1 | tail -1 ) > "$d/suite.txt"
   else
@@ -14,4 +15,6 @@ for d in seeded/*/; do
   fi
   git -C /repo worktree remove --force "$wt" >/dev/null 2>&1
   echo "$id: $(cat $d/suite.txt)"
-done
+}
+export -f one
+ls seeded | grep '^C' | xargs -P "${PAR:-1}" -I{} bash -c 'one {}'
